@@ -21,9 +21,10 @@ HB = ('history of K symbolic steps on two live objects (default-constructed): {r
       'offset() of two symbolic in-shape probe indices equals the layout Horner form (so distinct indices -> distinct cells), every resize return value equals the model')
 KINDS = {0: 'ndarray_t<static_vector<unsigned,8>, std::array<size_t,2>> row-major', 1: 'same, column-major', 2: 'ndarray_t<static_vector<unsigned,8>, static_vector<size_t,3>> row-major',
          3: 'same, column-major', 4: 'ndarray_t<std::vector<unsigned>, std::vector<size_t>> row-major (requests limited to <= 8 cells, dim <= 3)', 5: 'same, column-major', 6: 'ndarray_t<static_vector<unsigned,8>, std::array<size_t,3>> row-major'}
+KINDS.update({9: 'ndarray_t<std::array<unsigned,4>, static_vector<size_t,3>> row-major (FIXED buffer: only 4-element shapes are accepted)', 10: 'same, column-major'})
 KINDS.update({7: 'ndarray_t<static_vector<unsigned,4>, static_vector<size_t,3>> row-major (capacity 4)', 8: 'same, column-major'})
 PREB = ('; PRE queries: the first two steps are per-query constants (object 0 and object 1 resized to PRE 0: (2,3)/(3,2), 1: (2,2)/(1,4), 2: (2,2,2)/(4), 3: (1,4)/(1,2,3)), the remaining step(s) symbolic')
-CM = {1: ['KF_C20_COLMAJOR_STRIDES'], 3: ['KF_C20_COLMAJOR_STRIDES'], 5: ['KF_C20_COLMAJOR_STRIDES'], 8: ['KF_C20_COLMAJOR_STRIDES']}
+CM = {1: ['KF_C20_COLMAJOR_STRIDES'], 3: ['KF_C20_COLMAJOR_STRIDES'], 5: ['KF_C20_COLMAJOR_STRIDES'], 8: ['KF_C20_COLMAJOR_STRIDES'], 10: ['KF_C20_COLMAJOR_STRIDES']}
 BIG = dict(_timeout=1800, _mem_gb=12)
 def _hk(kind, quick, thorough, unwind=10, **kw):
     _h('hist_kind%d' % kind, 'h_hist', KINDS[kind] + '; ' + HB + PREB, quick=[dict(c, KIND=kind) for c in quick], thorough=[dict(c, KIND=kind) for c in thorough], kf=CM, unwind=unwind, mem_gb=6, **kw)
@@ -32,6 +33,8 @@ _hk(1, [dict(K=2, MAXE=4)], [dict(K=3, MAXE=4, **BIG)])
 _hk(6, [dict(K=2, MAXE=3)], [dict(K=3, MAXE=4, **BIG)])
 _hk(7, [dict(K=1, MAXE=4), dict(K=3, MAXE=4, PRE=1)], [dict(K=3, MAXE=4, PRE=p, **BIG) for p in (0, 2, 3)] + [dict(K=2, MAXE=4, **BIG)], unwind=6)
 _hk(8, [dict(K=1, MAXE=4), dict(K=3, MAXE=4, PRE=1, _mem_gb=8)], [dict(K=3, MAXE=4, PRE=p, **BIG) for p in (0, 2, 3)] + [dict(K=2, MAXE=4, **BIG)], unwind=6)
+_hk(9, [dict(K=1, MAXE=4)], [dict(K=2, MAXE=4, **BIG)] + [dict(K=3, MAXE=4, PRE=p, **BIG) for p in (1, 3)], unwind=6)
+_hk(10, [dict(K=1, MAXE=4)], [dict(K=2, MAXE=4, **BIG)] + [dict(K=3, MAXE=4, PRE=p, **BIG) for p in (1, 3)], unwind=6)
 _hk(2, [], [dict(K=3, MAXE=3, PRE=p, **BIG) for p in (0, 1, 2, 3)] + [dict(K=1, MAXE=3, **BIG)], optional=True)
 _hk(3, [], [dict(K=3, MAXE=3, PRE=p, **BIG) for p in (0, 1, 2, 3)] + [dict(K=1, MAXE=3, **BIG)], optional=True)
 _hk(4, [], [dict(K=1, MAXE=2, CAPU=4, HCAP=4, _timeout=1800, _mem_gb=14)], unwind=6, optional=True)
